@@ -587,7 +587,7 @@ static void rec_ison_small(const curve_t* c, long long lim)
 		rec_begin(c, "isonrow"); jInt("x", x); jInt("lim", lim); jIntArr("ys", ys, cnt); jEnd();
 	}
 }
-/* ecpIsOnA on listed points and on coordinates moved out of the field (x = p, x + p if it fits, all-ones) */
+/* ecpIsOnA on listed points and on coordinates moved out of the field (x = p, p + 1, all-ones; y = p) */
 static void rec_ison_big(const curve_t* c)
 {
 	const size_t n = c->n; int i, v;
@@ -600,7 +600,7 @@ static void rec_ison_big(const curve_t* c)
 		{
 		case 1: wwCopy(a, c->f->mod, n); break;                                  /* x = p */
 		case 2: wwCopy(a + n, c->f->mod, n); break;                              /* y = p */
-		case 3: if (zzAdd2(a, c->f->mod, n)) { free(a); continue; } break;       /* x + p */
+		case 3: wwCopy(a, c->f->mod, n); zzAddW2(a, n, 1); break;                /* x = p + 1 */
 		case 4: wwCopy(a + n, c->f->unity, n); break;                            /* y = 1 */
 		case 5: memset(a, 0xFF, O_OF_W(n)); break;                               /* x = B^n - 1 */
 		}
@@ -783,10 +783,10 @@ static int run_record(const char* tier)
 		rec_pairs(&C, !suite); rec_unary(&C); rec_mulsub(&C, 2); rec_ison_big(&C);
 		curve_free(&C);
 	}
-	if (!suite && sub_curve(&C, "b128n7", "1F25DD990495199FE9A67A8EE26BADEB", "8417DD990495199FE9A67A8EE26BADEB",
+	if (sub_curve(&C, "b128n7", "1F25DD990495199FE9A67A8EE26BADEB", "8417DD990495199FE9A67A8EE26BADEB",
 		"B6D80100000000000000000000000000", "F224DD990495199FE9A67A8EE26BADEB", "6F23DD990495199FE9A67A8EE26BADEB", 7))
 	{
-		rec_pairs(&C, 0); rec_unary(&C); rec_mulsub(&C, 3); rec_ison_big(&C);
+		rec_pairs(&C, 0); rec_unary(&C); rec_mulsub(&C, suite ? 4 : 3); rec_ison_big(&C);
 		curve_free(&C);
 	}
 	/* (C) the standard curves */
